@@ -32,6 +32,7 @@ func (k Kind) String() string { return [...]string{"unary", "client", "server", 
 // RPC kind is built from it).
 type HandlerCfg struct {
 	Comp        []string // custom algorithms in registration order (gzip is always registered first by the library)
+	NilComp     []string // names passed to WithCompression with nil constructors: documented as a no-op
 	CompressMin int
 	ReadMax     int
 	Recover     bool // install WithRecover
@@ -45,6 +46,7 @@ type ClientCfg struct {
 	Proto        Proto
 	JSON         bool
 	SendComp     string   // "" none
+	NilAccept    []string // names passed to WithAcceptCompression with nil constructors: a no-op
 	Accept       []string // custom algorithms in registration order (gzip is registered first by the library)
 	CompressMin  int
 	ReadMax      int
